@@ -1094,6 +1094,23 @@ fn name_variants(pos: usize, landmarks: &[usize], full: bool) -> Vec<Vec<u8>> {
         }
         long_ptr.extend(ptr(12));
         v.push(long_ptr);
+        // 252 / 254 octets of labels + pointer: exactly 255 octets when the
+        // target is a one-label name / the root
+        for last in [59usize, 61] {
+            let mut body = Vec::new();
+            for k in [63usize, 63, 63, last] {
+                body.push(k as u8);
+                body.extend(std::iter::repeat(b'q').take(k));
+            }
+            let mut a = body.clone();
+            a.extend(ptr(12));
+            v.push(a);
+            for &l in landmarks {
+                let mut b = body.clone();
+                b.extend(ptr(l));
+                v.push(b);
+            }
+        }
         let mut loop_label = vec![1, b'a'];
         loop_label.extend(ptr(pos));
         v.push(loop_label); // pointer back to own start: loop through a label
@@ -1415,14 +1432,44 @@ fn build_names() -> Vec<Vec<u8>> {
     let y = [b'y'; 63];
     let z = [b'z'; 63];
     let w = [b'w'; 49];
-    vec![
+    let mut v = vec![
         wire_of(&[b"example", b"com"]),
         wire_of(&[b"www", b"example", b"com"]),
         wire_of(&[b"WWW", b"EXAMPLE", b"COM"]),
         wire_of(&[b"mail", b"example", b"com"]),
         wire_of(&[&x, &y, &z, &w, b"example", b"com"]),
         wire_of(&[b"abcd\x07example", b"com"]),
-    ]
+    ];
+    // names of the long-script family (indices LRU_P ..)
+    v.push(wire_of(&[b"alpha"]));
+    v.push(wire_of(&[b"c", b"alpha"]));
+    v.push(wire_of(&[b"beta"]));
+    v.push(wire_of(&[b"c", b"beta"]));
+    for i in 0..LRU_FILLERS {
+        v.push(wire_of(&[format!("f{i:02}").as_bytes()]));
+    }
+    v
+}
+
+/// Long-script family: names 6..=9 are P, C.P, X, C.X; then unrelated fillers.
+const LRU_CORE: usize = 6;
+const LRU_FILL0: usize = 10;
+const LRU_FILLERS: usize = 41;
+
+fn name_text(names: &[Vec<u8>], n: usize) -> String {
+    if n < NAME_DESC.len() {
+        return NAME_DESC[n].to_string();
+    }
+    let mut out = String::new();
+    let w = &names[n];
+    let mut p = 0;
+    while w[p] != 0 {
+        let l = w[p] as usize;
+        out.push_str(&String::from_utf8_lossy(&w[p + 1..p + 1 + l]));
+        out.push('.');
+        p += 1 + l;
+    }
+    out
 }
 
 #[derive(Clone, Copy, Debug, PartialEq)]
@@ -1458,17 +1505,17 @@ const OPS: [Op; 14] = [
     Op::PadTo(16396),
 ];
 
-fn op_desc(op: Op) -> String {
+fn op_desc(op: Op, names: &[Vec<u8>]) -> String {
     match op {
-        Op::Q(n) => format!("question {} A", NAME_DESC[n]),
+        Op::Q(n) => format!("question {} A", name_text(names, n)),
         Op::R(s, n, rd) => format!(
             "{} record {} {}",
             ["", "answer", "authority", "additional"][s as usize],
-            NAME_DESC[n],
+            name_text(names, n),
             match rd {
                 Rd::A => "A 192.0.2.1".to_string(),
-                Rd::Cname(t) => format!("CNAME {}", NAME_DESC[t]),
-                Rd::Ns(t) => format!("NS {}", NAME_DESC[t]),
+                Rd::Cname(t) => format!("CNAME {}", name_text(names, t)),
+                Rd::Ns(t) => format!("NS {}", name_text(names, t)),
             }
         ),
         Op::PadTo(t) => format!("answer record . TYPE65280 padded so that it ends at message offset {t}"),
@@ -1850,7 +1897,9 @@ struct BuildStats {
 
 fn cause_of(ops: &[Op], len: usize) -> &'static str {
     let uses = |n: usize| ops.iter().any(|o| matches!(o, Op::Q(x) | Op::R(_, x, _) if *x == n) || matches!(o, Op::R(_, _, Rd::Ns(x) | Rd::Cname(x)) if *x == n));
-    if len > 0x4000 && ops.iter().any(|o| matches!(o, Op::PadTo(_))) {
+    if ops.len() > 32 {
+        "more-than-32-names-in-message"
+    } else if len > 0x4000 && ops.iter().any(|o| matches!(o, Op::PadTo(_))) {
         "message-crosses-offset-0x4000"
     } else if uses(5) {
         "name-with-label-boundary-lookalike-octets"
@@ -1863,11 +1912,52 @@ fn cause_of(ops: &[Op], len: usize) -> &'static str {
 
 fn run_build_case(ctx: &Ctx, stats: &Stats, bs: &BuildStats, wd: &Watchdog, idx: &[usize], names: &[Vec<u8>]) {
     let ops: Vec<Op> = idx.iter().map(|i| OPS[*i]).collect();
+    let key = idx.iter().fold(0xcbf29ce484222325u64, |h, i| (h ^ (*i as u64 + 1)).wrapping_mul(0x100000001b3));
+    run_build_ops(ctx, stats, bs, wd, &ops, &json!({"part": "build", "ops": idx}), key, names);
+}
+
+/// Long-script family: head (core names), k unrelated filler names, tail (core names);
+/// every item is an answer A record owned by the name.
+fn lru_ops(head: &[usize], k: usize, tail: &[usize]) -> Vec<Op> {
+    let mut ops = Vec::new();
+    for h in head {
+        ops.push(Op::R(1, LRU_CORE + h, Rd::A));
+    }
+    for i in 0..k {
+        ops.push(Op::R(1, LRU_FILL0 + i, Rd::A));
+    }
+    for t in tail {
+        ops.push(Op::R(1, LRU_CORE + t, Rd::A));
+    }
+    ops
+}
+
+fn run_lru_case(ctx: &Ctx, stats: &Stats, bs: &BuildStats, wd: &Watchdog, head: &[usize], k: usize, tail: &[usize], names: &[Vec<u8>]) {
+    let ops = lru_ops(head, k, tail);
+    let mut key = 0x9E3779B97F4A7C15u64 ^ k as u64;
+    for h in head {
+        key = (key ^ (*h as u64 + 1)).wrapping_mul(0x100000001b3);
+    }
+    key = (key ^ 0xFF).wrapping_mul(0x100000001b3);
+    for t in tail {
+        key = (key ^ (*t as u64 + 1)).wrapping_mul(0x100000001b3);
+    }
+    run_build_ops(ctx, stats, bs, wd, &ops, &json!({"part": "build-long", "head": head, "fillers": k, "tail": tail}), key, names);
+}
+
+#[allow(clippy::too_many_arguments)]
+fn run_build_ops(ctx: &Ctx, stats: &Stats, bs: &BuildStats, wd: &Watchdog, ops: &[Op], case_base: &Value, key: u64, names: &[Vec<u8>]) {
+    let ops: Vec<Op> = ops.to_vec();
     let verbose = ctx.replay.is_some();
     for builder in ["established/TreeCompressor", "new/owner=RevNameBuf", "new/owner=&Name"] {
         stats.eval();
         bs.sequences.fetch_add(1, AO::Relaxed);
-        let case = || json!({"part": "build", "ops": idx, "ops_text": ops.iter().map(|o| op_desc(*o)).collect::<Vec<_>>(), "builder": builder});
+        let case = || {
+            let mut c = case_base.clone();
+            c["ops_text"] = json!(ops.iter().map(|o| op_desc(*o, names)).collect::<Vec<_>>());
+            c["builder"] = json!(builder);
+            c
+        };
         wd.enter(case);
         let built = guard(|| match builder {
             "established/TreeCompressor" => run_old(&ops, names),
@@ -1913,9 +2003,7 @@ fn run_build_case(ctx: &Ctx, stats: &Stats, bs: &BuildStats, wd: &Watchdog, idx:
                     bs.pointers.fetch_add(*nptr as u64, AO::Relaxed);
                     bs.max_target.fetch_max(*maxt as u64, AO::Relaxed);
                     stats.nontrivial.fetch_add(1, AO::Relaxed);
-                    let mut key = idx.iter().fold(0xcbf29ce484222325u64, |h, i| (h ^ (*i as u64 + 1)).wrapping_mul(0x100000001b3));
-                    key ^= fnv(builder.as_bytes());
-                    stats.distinct(key | 1 << 62);
+                    stats.distinct((key ^ fnv(builder.as_bytes())) | 1 << 62);
                 }
                 if out.msg.len() > 0x4000 {
                     bs.crossing.fetch_add(1, AO::Relaxed);
@@ -2003,10 +2091,17 @@ fn main() {
         let v: Value = serde_json::from_str(&std::fs::read_to_string(path).expect("replay file")).expect("json");
         let case = &v["case"];
         println!("replaying {}", v["signature"]);
-        if case["part"].as_str() == Some("build") {
+        if case["part"].as_str() == Some("build-long") {
+            let arr = |k: &str| -> Vec<usize> { case[k].as_array().expect("array").iter().map(|x| x.as_u64().unwrap() as usize).collect() };
+            let (head, k, tail) = (arr("head"), case["fillers"].as_u64().expect("fillers") as usize, arr("tail"));
+            for o in lru_ops(&head, k, &tail) {
+                println!("  {}", op_desc(o, &names));
+            }
+            run_lru_case(&ctx, &stats, &bs, &wd, &head, k, &tail, &names);
+        } else if case["part"].as_str() == Some("build") {
             let idx: Vec<usize> = case["ops"].as_array().expect("ops").iter().map(|x| x.as_u64().unwrap() as usize).collect();
             for i in &idx {
-                println!("  op {}: {}", i, op_desc(OPS[*i]));
+                println!("  op {}: {}", i, op_desc(OPS[*i], &names));
             }
             run_build_case(&ctx, &stats, &bs, &wd, &idx, &names);
         } else {
@@ -2149,9 +2244,35 @@ fn main() {
         });
     }
 
+    // long scripts: more names than the new compressor has slots (32)
+    let tail_max = if quick { 2 } else { 3 };
+    let seqs = |maxlen: usize, minlen: usize| -> Vec<Vec<usize>> {
+        let mut v = Vec::new();
+        for d in minlen..=maxlen {
+            for k in 0..pow(4, d) {
+                let mut s = Vec::new();
+                nth_string(&[0usize, 1, 2, 3], d, k, &mut s);
+                v.push(s);
+            }
+        }
+        v
+    };
+    let heads = seqs(2, 0);
+    let tails = seqs(tail_max, 1);
+    let mut long_cases: Vec<(usize, usize, usize)> = Vec::new();
+    for h in 0..heads.len() {
+        for k in 0..LRU_FILLERS {
+            for t in 0..tails.len() {
+                long_cases.push((h, k, t));
+            }
+        }
+    }
+    stats.count_n("gen.long_scripts", long_cases.len() as u64);
+    long_cases.par_iter().for_each(|(h, k, t)| run_lru_case(&ctx, &stats, &bs, &wd, &heads[*h], *k, &tails[*t], &names));
+
     stats.sample(1, || json!({"part": "parse", "family": "one-item", "message": hex(&assemble(0xABCD, &[&first[first.len() / 2]], 0x8400, [0, 1, 0, 0]))}));
     stats.sample(2, || json!({"part": "parse", "family": "raw", "message": hex(&[&headers[0][..], &[0xC0, 0x0C, 0x00, 0x01, 0x00][..]].concat())}));
-    let sample_ops: Vec<String> = [1usize, 8, 2, 4].iter().map(|i| op_desc(OPS[*i])).collect();
+    let sample_ops: Vec<String> = [1usize, 8, 2, 4].iter().map(|i| op_desc(OPS[*i], &names)).collect();
     stats.sample(3, || json!({"part": "build", "ops": [1, 8, 2, 4], "ops_text": sample_ops}));
     let mut hist = serde_json::Map::new();
     let mut outcomes_seen = 0;
@@ -2172,7 +2293,7 @@ fn main() {
         "distinct_nontrivial": stats.nontrivial.load(AO::Relaxed).min(stats.distinct_count()),
         "rule": "Part 1: one case = one message (C01 grammar: header variants x 1..2 items (quick) / 1..3 items (thorough) from per-field menus with pointers to every landmark; every truncation of short one-item messages; every raw body over 9 symbols to raw_len after 4 headers) with every unit (compressed name in 4 views + UnparsedName, flat name in 3 views, question and record in 2 views each, character string) parsed at every landmark offset (raw: every offset) and the whole message parsed through the iterators / low-level API / MessageParser by both codecs; non-trivial = both codecs accepted a name containing a compression pointer, a record with non-empty RDATA, or at least one whole-message item; distinct = distinct message octets. Part 2: one case = (operation sequence, builder); non-trivial = the built message contains at least one compression pointer (independent reader); distinct = distinct (sequence, builder)",
         "exhaustive": true,
-        "bound": {"parse_items": if quick { 2 } else { 3 }, "raw_len": rawlen, "raw_alphabet": raw, "build_depth": depth, "build_alphabet": OPS.iter().map(|o| op_desc(*o)).collect::<Vec<_>>()},
+        "bound": {"parse_items": if quick { 2 } else { 3 }, "raw_len": rawlen, "raw_alphabet": raw, "build_depth": depth, "build_alphabet": OPS.iter().map(|o| op_desc(*o, &names)).collect::<Vec<_>>(), "build_long": format!("head: every sequence of 0..2 of {{alpha., c.alpha., beta., c.beta.}}; then k = 0..{} distinct unrelated one-label names; tail: every sequence of 1..{} of the four; all answer A records", LRU_FILLERS - 1, tail_max)},
         "parse_cases": parse_evals,
         "unit_view_outcomes": Value::Object(hist),
         "distinct_unit_outcomes_observed": outcomes_seen,
